@@ -1,4 +1,5 @@
 import MlModel.Lemmas.ConfusionSharding
+import MlModel.Lemmas.ConfusionSamplewise
 /-!
 # C01 (classification family) — confusion-matrix aggregates are invariant to batching / sharding
 
@@ -158,5 +159,87 @@ theorem C01_classification_row_independence (W : Nat) (xs ys : List DenseEx)
         fp := appendV (denseCM (some 1) W xs).fp (denseCM (some 1) W ys).fp,
         fn := appendV (denseCM (some 1) W xs).fn (denseCM (some 1) W ys).fn } :=
   denseCM_samples_append W xs ys hx hy
+
+/-! ## `SamplewiseClassification` (samples average): state = Σ per-example scores -/
+
+section samplewise
+variable {X : Type} {c : Cfg} {W : Nat} {okB : List X → Prop} {toBatch : List X → Batch}
+  {enc : X → DenseEx}
+
+/-- `add` returns, for every metric, one score per example, each computed from that example alone
+(`scoresOf` maps the metric's rate over `exampleCM (enc x)`): the value of an example in a batch is
+its value in the singleton batch -/
+theorem C01_classification_samplewise_rows (h : EncodesSamples c W okB toBatch enc) (sqrt : Rat → Rat)
+    (hm : ∀ m ∈ c.metrics, ∃ f, Generated.derive sqrt m = .rate f) (st : SwState) (xs : List X)
+    (hok : okB xs) :
+    (swAdd sqrt c st (toBatch xs)).map (·.1)
+      = .ok (c.metrics.map fun m => (m, xs.flatMap fun x => scoresOf sqrt enc m [x])) := by
+  have key : ∀ (m : Generated.Metric) (zs : List X),
+      scoresOf sqrt enc m zs = zs.flatMap fun x => scoresOf sqrt enc m [x] := by
+    intro m zs
+    induction zs with
+    | nil => unfold scoresOf; split <;> rfl
+    | cons x zs ih =>
+      have := scoresOf_append sqrt enc m [x] zs
+      simp only [List.singleton_append] at this
+      rw [this, List.flatMap_cons, ih]
+  rw [swAdd_closed h sqrt hm st xs hok]
+  simp only [Except.map]
+  congr 2
+  funext m
+  rw [← key m xs]
+
+/-- **batching**: one accumulator fed `xs ++ ys` in one batch, or `xs` then `ys`, holds the same state -/
+theorem C01_classification_samplewise_batching (h : EncodesSamples c W okB toBatch enc)
+    (sqrt : Rat → Rat) (hm : ∀ m ∈ c.metrics, ∃ f, Generated.derive sqrt m = .rate f) (st : SwState)
+    (xs ys : List X) (hx : okB xs) (hy : okB ys) (hxy : okB (xs ++ ys)) :
+    (swAdd sqrt c st (toBatch (xs ++ ys))).map (·.2)
+      = (swAdd sqrt c st (toBatch xs) >>= fun r => swAdd sqrt c r.2 (toBatch ys)).map (·.2) := by
+  rw [swAdd_closed h sqrt hm st _ hxy, swAdd_closed h sqrt hm st _ hx]
+  simp only [bind, Except.bind, swAdd_closed h sqrt hm _ _ hy, Except.map]
+  congr 1
+  have := contribOf_append sqrt enc c.metrics xs ys st SwState.empty
+  rw [swMerge_empty_right] at this
+  rw [this, ← contribOf_start]
+
+/-- **sharding**: two accumulators fed `xs` and `ys` and merged hold the state of one accumulator fed
+`xs ++ ys` (and by `C11_classification_samplewise_*` any merge order / grouping gives the same) -/
+theorem C01_classification_samplewise_sharding (h : EncodesSamples c W okB toBatch enc)
+    (sqrt : Rat → Rat) (hm : ∀ m ∈ c.metrics, ∃ f, Generated.derive sqrt m = .rate f)
+    (xs ys : List X) (hx : okB xs) (hy : okB ys) (hxy : okB (xs ++ ys)) :
+    (do let a ← swAdd sqrt c SwState.empty (toBatch xs)
+        let b ← swAdd sqrt c SwState.empty (toBatch ys)
+        pure (swMerge a.2 b.2))
+      = (swAdd sqrt c SwState.empty (toBatch (xs ++ ys))).map (·.2) := by
+  rw [swAdd_closed h sqrt hm _ _ hxy, swAdd_closed h sqrt hm _ _ hx, swAdd_closed h sqrt hm _ _ hy]
+  simp only [bind, Except.bind, pure, Except.pure, Except.map]
+  have := contribOf_append sqrt enc c.metrics xs ys SwState.empty SwState.empty
+  rw [swMerge_empty_right] at this
+  rw [this]
+
+/-- multiclass input with an explicit vocabulary satisfies the hypothesis (samplewise accumulator) -/
+theorem C01_classification_samplewise_multiclass (c : Cfg) (keys : List Label) (hn : keys.Nodup)
+    (hne : keys ≠ []) (hk : c.kind = .samplewise) (hi : c.input = some .multiclass)
+    (hv : c.vocab = some keys.zipIdx) (ha : c.average = .samples) :
+    EncodesSamples c keys.length (fun xs => ∀ x ∈ xs, x.1 ∈ keys ∧ x.2 ∈ keys) mcBatch
+      (encMulticlass keys) where
+  batch_eq := fun xs hx => by
+    simp only [batchCM, hk, hi, hv, ha]
+    exact multiclassCM_explicit keys hn hne .samples (some 1) rfl (by decide) xs hx
+  aligned := fun x => by simp [encMulticlass, mark]
+
+/-- multiclass-multioutput input with an explicit vocabulary (samplewise accumulator) -/
+theorem C01_classification_samplewise_multioutput (c : Cfg) (keys : List Label) (hn : keys.Nodup)
+    (hne : keys ≠ []) (hk : c.kind = .samplewise) (hi : c.input = some .multioutput)
+    (hv : c.vocab = some keys.zipIdx) (ha : c.average = .samples) :
+    EncodesSamples c keys.length
+      (fun xs => ∀ x ∈ xs, (∀ e ∈ x.1, e ∈ keys) ∧ (∀ e ∈ x.2, e ∈ keys)) moBatch
+      (encMultioutput keys) where
+  batch_eq := fun xs hx => by
+    simp only [batchCM, hk, hi, hv, ha]
+    exact multioutputCM_explicit keys hn hne .samples (some 1) rfl (by decide) xs hx
+  aligned := fun x => by simp [encMultioutput, mark]
+
+end samplewise
 
 end MlModel.C01
